@@ -29,7 +29,7 @@ KW_PROSE = {
 FOOTERS = ["Notes about usage.", ">>> f(1, 2)", "'x'", "Example follows below", "    indented example line", "References are listed elsewhere"]
 
 
-def render_section(r, ir, style):
+def render_section(r, ir, style, with_types=True):
     """hand-written renderers (independent of the real emitter) of a parameter/return section"""
     out = []
     ps = list(ir["params"].items())
@@ -39,7 +39,7 @@ def render_section(r, ir, style):
             d = p.get("doc", "thing")
             if "default" in p:
                 d += ". Defaults to %s" % G.render_default(p["default"])
-            out += [":param %s: %s" % (n, d), ":type %s: ```%s```" % (n, p["typ"]), ""]
+            out += [":param %s: %s" % (n, d)] + ([":type %s: ```%s```" % (n, p["typ"])] if with_types else []) + [""]
         if rt:
             out += [":return: %s" % rt.get("doc", "result"), ":rtype: ```%s```" % rt["typ"]]
     elif style == "google":
@@ -71,7 +71,8 @@ def render_section(r, ir, style):
 
 def gen_doc(r):
     style = r.choice(STYLES)
-    ir = G.gen_ir(r, nparams=r.randint(1, 4), none_ok=False, with_return=r.random() < 0.6)
+    minimal = r.random() < 0.15  # the smallest legal sections: one entry, possibly one line, nothing after it (not even a newline)
+    ir = G.gen_ir(r, nparams=1 if minimal else r.randint(1, 4), none_ok=False, with_return=(r.random() < 0.6) and not minimal)
     paras = []
     for _ in range(r.randint(1, 3)):
         paras.append("\n".join(r.sample(PROSE, r.randint(1, 2))))
@@ -81,12 +82,12 @@ def gen_doc(r):
         paras.insert(r.randint(1, len(paras)), KW_PROSE[kw])
     header = "\n\n".join(paras)
     header_lines = [l for l in header.split("\n") if l.strip()]
-    footer = "\n".join(r.sample(FOOTERS, r.randint(1, 3))) if r.random() < 0.5 else ""
+    footer = "\n".join(r.sample(FOOTERS, r.randint(1, 3))) if r.random() < 0.5 and not minimal else ""
     footer_lines = [l.strip() for l in footer.split("\n") if l.strip()]
-    d = header + "\n\n" + render_section(r, ir, style) + ("\n\n" + footer if footer else "") + r.choice(["", "\n"])
-    ind = r.choice([0, 4, 8])
+    d = header + "\n\n" + render_section(r, ir, style, with_types=not (minimal and r.random() < 0.6)) + ("\n\n" + footer if footer else "") + ("" if minimal else r.choice(["", "\n"]))
+    ind = r.choice([0, 4, 4, 8]) if minimal else r.choice([0, 4, 8])
     if ind:
-        d = "\n" + "\n".join((" " * ind + l) if l else l for l in d.split("\n")) + r.choice(["", "\n" + " " * ind])
+        d = "\n" + "\n".join((" " * ind + l) if l else l for l in d.split("\n")) + r.choice(["", "" if minimal else "\n" + " " * ind])
     return {"doc": d, "style": style, "indent": ind, "header_lines": header_lines, "footer_lines": footer_lines, "has_footer": bool(footer),
             "has_return": bool(ir.get("returns")), "nparams": len(ir["params"]), "names": list(ir["params"]), "kw": kw}
 
